@@ -232,48 +232,77 @@ def main(argv=None):
     ctx = mp.get_context('spawn')
     real_err.write('[%s] tier=%s seed=%d shards=%d jobs=%d repo=%s\n' % (
         pid, a.tier, seed, n, jobs, REPO))
-    pool = ctx.Pool(jobs, initializer=_winit, initargs=(modname, True),
-                    maxtasksperchild=1 if getattr(mod, 'FRESH_WORKERS', False) else None)
-    try:
-        it = pool.imap_unordered(
-            _wrun, [(i, shards[i], a.tier) for i in order], chunksize=1)
-        for out in it:
-            done += 1
-            merged.evals += out['evals']
-            merged.nontrivial += out['nontrivial']
-            merged.outcomes.update(out['outcomes'])
-            for k_, v_ in out['extra'].items():
-                if k_.startswith('max_'):
-                    merged.extra[k_] = max(merged.extra[k_], v_)
-                else:
-                    merged.extra[k_] += v_
-            merged.states += out['states']
-            merged.transitions += out['transitions']
-            merged.traces += out['traces']
-            merged.notes.extend(out['notes'])
-            for s in out['samples']:
-                merged.sample(s, limit=400)
-            for v in out['violations']:
-                if v['key'] in per_key:
-                    per_key[v['key']]['count'] += v['count']
-                    # keep the smallest witness
-                    if len(json.dumps(v['witness'], default=str)) < len(
-                            json.dumps(per_key[v['key']]['witness'],
-                                       default=str)):
-                        v['count'] = per_key[v['key']]['count']
+    hash_seeds = [os.environ.get('PYTHONHASHSEED', '0')]
+    two = getattr(mod, 'TWO_HASH_SEEDS', ())
+    if a.tier in two:
+        # set iteration order is a hidden input of the loaders: the whole
+        # space is walked a second time under another hash seed and the two
+        # outcome histograms must be identical
+        hash_seeds.append(str(1 + (seed * 7919 + 104729) % 4000000000))
+    per_pass = []
+    for pass_no, hs in enumerate(hash_seeds):
+        os.environ['PYTHONHASHSEED'] = hs
+        before = collections.Counter(merged.outcomes)
+        done_pass = 0
+        pool = ctx.Pool(jobs, initializer=_winit, initargs=(modname, True),
+                        maxtasksperchild=1 if getattr(mod, 'FRESH_WORKERS', False) else None)
+        try:
+            it = pool.imap_unordered(
+                _wrun, [(i, shards[i], a.tier) for i in order], chunksize=1)
+            for out in it:
+                done += 1
+                done_pass += 1
+                merged.evals += out['evals']
+                merged.nontrivial += out['nontrivial']
+                merged.outcomes.update(out['outcomes'])
+                for k_, v_ in out['extra'].items():
+                    if k_.startswith('max_'):
+                        merged.extra[k_] = max(merged.extra[k_], v_)
+                    else:
+                        merged.extra[k_] += v_
+                merged.states += out['states']
+                merged.transitions += out['transitions']
+                merged.traces += out['traces']
+                merged.notes.extend(out['notes'])
+                for s in out['samples']:
+                    merged.sample(s, limit=400)
+                for v in out['violations']:
+                    if v['key'] in per_key:
+                        per_key[v['key']]['count'] += v['count']
+                        # keep the smallest witness
+                        if len(json.dumps(v['witness'], default=str)) < len(
+                                json.dumps(per_key[v['key']]['witness'],
+                                           default=str)):
+                            v['count'] = per_key[v['key']]['count']
+                            per_key[v['key']] = v
+                    else:
                         per_key[v['key']] = v
-                else:
-                    per_key[v['key']] = v
-            if done % max(1, n // 10) == 0:
-                real_err.write('[%s] %d/%d shards, %d evals, %d keys, %.0fs\n'
-                               % (pid, done, n, merged.evals, len(per_key),
-                                  time.time() - t0))
-            if time.time() - t0 > cap:
-                capped = True
-                break
-    finally:
-        pool.terminate()
-        pool.join()
+                if done % max(1, n // 10) == 0:
+                    real_err.write('[%s] %d/%d shards, %d evals, %d keys, %.0fs\n'
+                                   % (pid, done, n, merged.evals, len(per_key),
+                                      time.time() - t0))
+                if time.time() - t0 > cap:
+                    capped = True
+                    break
+        finally:
+            pool.terminate()
+            pool.join()
+        after = collections.Counter(merged.outcomes)
+        after.subtract(before)
+        per_pass.append(dict((k, v) for k, v in after.items() if v))
+        if capped:
+            break
+    os.environ['PYTHONHASHSEED'] = hash_seeds[0]
+    if len(per_pass) == 2 and not capped and per_pass[0] != per_pass[1]:
+        diff = sorted(k for k in set(per_pass[0]) | set(per_pass[1])
+                      if per_pass[0].get(k) != per_pass[1].get(k))
+        per_key['hash-seed-dependent'] = dict(
+            key='hash-seed-dependent', count=1,
+            msg='the outcome histogram depends on PYTHONHASHSEED (%s vs %s): %s'
+                % (hash_seeds[0], hash_seeds[1],
+                   [(k, per_pass[0].get(k), per_pass[1].get(k)) for k in diff[:6]]),
+            witness=dict(kind='hash-seed', seeds=hash_seeds))
+    n_total = n * len(hash_seeds)
 
     extra_cov = {}
     if hasattr(mod, 'finish'):
@@ -295,7 +324,10 @@ def main(argv=None):
     for v in unlisted:
         path = write_replay(pid, v)
         if printed < MAX_PRINT:
-            ok, detail = revalidate(pid, path)
+            if v['key'] == 'hash-seed-dependent':
+                ok, detail = True, ''
+            else:
+                ok, detail = revalidate(pid, path)
             if not ok:
                 nondeterministic.append((v, path, detail))
                 continue
@@ -326,14 +358,14 @@ def main(argv=None):
     ss = sorted(merged.samples, key=lambda x: -len(json.dumps(x, default=str)))
     merged.samples = ss[:3] + ss[3::max(1, len(ss) // 3)][:3]
     wall = time.time() - t0
-    exhaustive = (not capped) and done == n
+    exhaustive = (not capped) and done == n_total
     cov = dict(
         evaluations=int(merged.evals),
         distinct_nontrivial=int(merged.nontrivial),
         rule=mod.RULE,
         samples=merged.samples or ['(no case executed)'],
         exhaustive=bool(exhaustive),
-        shards_total=n, shards_done=done,
+        shards_total=n_total, shards_done=done, hash_seeds=hash_seeds,
         outcome_histogram=dict(sorted(merged.outcomes.items(),
                                       key=lambda kv: -kv[1])[:60]),
         distinct_outcomes=len(merged.outcomes),
@@ -346,7 +378,7 @@ def main(argv=None):
     if capped:
         cov['cap_hit_s'] = cap
         cov['explanation'] = ('wall-clock cap hit: %d of %d shards fully '
-                              'explored; the rest were not started' % (done, n))
+                              'explored; the rest were not started' % (done, n_total))
     if merged.notes:
         cov['notes'] = merged.notes[:20]
     if mod.LEVEL == 'model_checking':
